@@ -134,6 +134,9 @@ Cands ==
   \* assignment between array_ref's over the storage of two arrays of equal extents: deep, no allocation, storage kept
   \cup UNION {{Op(nm, s, t, NoX, 0, NoW) : nm \in {"ref_assign", "ref_assign_move"},
                  t \in {q \in LiveS \ {s} : arr[q].shape = arr[s].shape /\ arr[q].first = arr[s].first /\ NE(arr[q]) > 0}} : s \in LiveS}
+  \* swap of the whole-array VIEWS of two arrays of equal extensions: the elements are exchanged, storage and allocators stay
+  \cup UNION {{Op("swap_views", s, t, NoX, 0, NoW) :
+                 t \in {q \in LiveS \ {s} : arr[q].shape = arr[s].shape /\ arr[q].first = arr[s].first /\ NE(arr[q]) > 0}} : s \in LiveS}
   \cup {Op("self_assign", s, s, NoX, 0, NoW) : s \in LiveS}
   \cup {Op("write", s, 0, NoX, 99, NoW) : s \in {q \in LiveS : NE(arr[q]) > 0}}
   \cup {Op("write_last", s, 0, NoX, 98, NoW) : s \in {q \in LiveS : NE(arr[q]) > 1}}
@@ -173,7 +176,7 @@ Result(o) ==   \* new value of slot o.s
     \* (ctor_rref: from a TEMPORARY array_ref over the source's storage: a reference, so the source keeps its elements)
     [] o.op \in {"ctor_copy", "ctor_move", "ctor_ref", "ctor_rref", "ctor_other", "ctor_other_x",
                  "assign_copy", "assign_move", "assign_other", "ref_assign", "ref_assign_move"} -> arr[o.t]
-    [] o.op = "swap"          -> arr[o.t]
+    [] o.op \in {"swap", "swap_views"} -> arr[o.t]
     [] o.op = "self_assign"   -> arr[o.s]
     [] o.op = "write"         -> WriteF(arr[o.s], 1, o.v)
     [] o.op = "write_last"    -> WriteF(arr[o.s], NE(arr[o.s]), o.v)
@@ -196,7 +199,7 @@ MoveSteals(o) ==
     [] OTHER -> FALSE
 SourceAfter(o) ==
   CASE o.op \in {"ctor_move", "assign_move", "ctor_move_al"} -> IF MoveSteals(o) THEN EmptyArr ELSE Unspec
-    [] o.op = "swap" -> arr[o.s]
+    [] o.op \in {"swap", "swap_views"} -> arr[o.s]
     [] OTHER -> arr[o.t]
 
 (* allocator of slot o.s after the operation *)
